@@ -3,6 +3,7 @@ package main
 import (
 	"fmt"
 	"math"
+	"strings"
 	"time"
 
 	jwt "github.com/nats-io/jwt/v2"
@@ -88,6 +89,47 @@ func runC07(c *Ctx) {
 				one(kind, 0, sign*v, n%5 == 1)
 				one(kind, sign*v, sign*v, false)
 				c.count("range_sweep")
+			}
+		}
+	}
+	// one results object for several claims (an operator, its accounts and users checked in one go), and for the same
+	// claim twice: every Validate adds its own time-check issues, whatever the object already holds
+	for _, ka := range kindNames {
+		for _, kb := range kindNames {
+			for _, tcase := range [][2]int64{{now - 1000, 0}, {0, now + 1000}, {now - 900, now + 900}, {0, 0}} {
+				a, b := g.clean(ka), g.clean(kb)
+				a.Claims().Expires, a.Claims().NotBefore = tcase[0], tcase[1]
+				b.Claims().Expires, b.Claims().NotBefore = tcase[0], tcase[1]
+				each := 0
+				if tcase[0] > 0 {
+					each++
+				}
+				if tcase[1] > 0 {
+					each++
+				}
+				vr := jwt.CreateValidationResults()
+				count := func() int {
+					n := 0
+					for _, is := range vr.Issues {
+						if is.TimeCheck {
+							n++
+						}
+					}
+					return n
+				}
+				a.Validate(vr)
+				n1 := count()
+				b.Validate(vr)
+				n2 := count()
+				a.Validate(vr)
+				n3 := count()
+				c.sum.Evaluations++
+				c.sum.ImplChecks++
+				if n1 != each || n2 != 2*each || n3 != 3*each || vr.IsBlocking(true) != (each > 0) || vr.IsBlocking(false) {
+					c.violation("C07: claims validated into a results object that already holds issues do not add their own time-check issues",
+						map[string]interface{}{"first": ka, "second": kb, "exp": tcase[0], "nbf": tcase[1], "time_issues_after_each_validate": []int{n1, n2, n3}, "expected_per_claim": each})
+				}
+				c.count("shared_results_object")
 			}
 		}
 	}
@@ -350,6 +392,34 @@ func runC10(c *Ctx) {
 					}
 					if timeIssues != 0 {
 						c.violation("C10: the embedded token contributed a time-check issue", inp)
+					}
+					// keys are compared as the texts they are: the exporter's or the importing account's key in another
+					// letter case, or with look-alike characters that fold to the right letters, is another text
+					if allOK {
+						for _, respell := range []func(string) string{strings.ToLower,
+							func(k string) string { return strings.Replace(k, "S", "\u017f", 1) },
+							func(k string) string { return strings.Replace(k, "K", "\u212a", 1) },
+							func(k string) string { return k[:1] + strings.ToLower(k[1:]) }} {
+							if r := respell(exporter.pub); r != exporter.pub && signerKind == "identity" {
+								im2 := *im
+								im2.Account = r
+								v2 := jwt.CreateValidationResults()
+								im2.Validate(importer.pub, v2)
+								c.sum.ImplChecks++
+								if !v2.IsBlocking(false) {
+									c.violation("C10: an import naming a respelling of the exporter's key is bound to the exporter's token", inp)
+								}
+							}
+							if r := respell(importer.pub); r != importer.pub {
+								v2 := jwt.CreateValidationResults()
+								im.Validate(r, v2)
+								c.sum.ImplChecks++
+								if !v2.IsBlocking(false) {
+									c.violation("C10: a token addressed to an account binds under a respelling of that account's key", inp)
+								}
+							}
+						}
+						c.count("respelled_keys")
 					}
 					// validated with NO containing account (empty key): a token is always addressed to some account,
 					// never to "none", so the binding cannot hold
